@@ -10,9 +10,9 @@ CONSTANTS
   AckCap = 2
   MaxBufs = {4096, 40960}
   Modes = {"bin"}
-  Protos = {2, 3, 4}
+  Protos = {2, 4}
   Secs = {2, 20}
-  MaxChunks = 2
+  MaxChunks = 1
   P1MaxChunks = 1
   MaxFiles = 2
   MaxPauses = 1
